@@ -41,3 +41,43 @@ Definition define_reg (r : registry) (et : bytes) (cs : cmd_schema) : registry :
   | DefOk r' => r'
   | DefErr _ => r
   end.
+
+(** ---- persistence: schemas.bin and the replay at start-up ----
+    [define_async] appends one record (event type, converted schema; the uid is not modelled)
+    to the schema file AFTER both checks passed and before registering it; a DEFINE answered
+    with an error writes nothing.  [SchemaRegistry::new] replays the file in order through
+    [register_record], a [HashMap::insert]: the LAST record of an event type wins.  The append
+    is an unbuffered write that has returned before the DEFINE is answered, so a killed
+    process keeps it; a record cut short or failing its CRC is skipped by the reader (not
+    modelled: the model's log holds whole records only). *)
+Fixpoint reg_insert (r : registry) (et : bytes) (sc : schema) : registry :=
+  match r with
+  | [] => [(et, sc)]
+  | (k, s) :: r' => if bytes_eqb k et then (k, sc) :: r' else (k, s) :: reg_insert r' et sc
+  end.
+
+Definition replay (log : list (bytes * schema)) : registry :=
+  fold_left (fun r rc => reg_insert r (fst rc) (snd rc)) log [].
+
+(** registry in memory + records on disk *)
+Record pstate := { ps_reg : registry; ps_log : list (bytes * schema) }.
+Definition ps_init : pstate := {| ps_reg := []; ps_log := [] |}.
+
+Definition define_p (ps : pstate) (et : bytes) (cs : cmd_schema) : pstate * option define_error :=
+  match define (ps_reg ps) et cs with
+  | DefOk r' => ({| ps_reg := r'; ps_log := ps_log ps ++ [(et, schema_of_cmd cs)] |}, None)
+  | DefErr e => (ps, Some e)
+  end.
+
+(** a new process on the same directory (after a clean exit or a kill alike) *)
+Definition restart_p (ps : pstate) : pstate := {| ps_reg := replay (ps_log ps); ps_log := ps_log ps |}.
+
+Inductive reg_op := OpDefine (et : bytes) (cs : cmd_schema) | OpRestart.
+
+Definition step_p (ps : pstate) (op : reg_op) : pstate :=
+  match op with
+  | OpDefine et cs => fst (define_p ps et cs)
+  | OpRestart => restart_p ps
+  end.
+
+Definition run_p (ops : list reg_op) : pstate := fold_left step_p ops ps_init.
